@@ -14,3 +14,5 @@ func verifSimplifyRemoved(int) {}
 const verifSkipFixSelfIntersects = false
 
 func verifSkipJoin(e, other *Active, pt Point64, checkCurrX bool) bool { return false }
+
+func verifSkipMicroFix(op *OutPt) bool { return false }
